@@ -114,6 +114,8 @@ def gen_case(rng, cid, dev2_ok, scratch, small=False, large=False):
             "n": None if rng.chance(3, 10) else rng.choice([0, 1, 1, 2, 2, 3, 4, 5]),
             "mlinks": rng.chance(3, 10), "nosize": rng.chance(2, 10),
             "mbefore": None if rng.chance(4, 10) else 500,
+            # UTC offset the cut-off is expressed with (the header stores local time + offset): same instant
+            "tz_off": rng.choice([0, 3600, 7200, -18000, 19800, 46800]),
             "prio": prio, "iso": iso, "inodes": inodes, "members": members}
     case.update(pats)
     if large:
@@ -377,6 +379,8 @@ def examine(ctx, cases, results, model_out, scratch, count=True):
             ctx.bump("match_links", case["mlinks"])
             ctx.bump("no_check_size", case["nosize"])
             ctx.bump("modified_before", case["mbefore"] is not None)
+            if case["mbefore"] is not None:
+                ctx.bump("cutoff_utc_offset_s", case.get("tz_off", 3600))
             ctx.bump("patterns", "".join(x for x in ("kn", "kp", "dn", "dp") if case[x]) or "none")
             ctx.bump("partition_result", pres["kind"])
             ctx.bump("member_kinds", ",".join(sorted(set(
